@@ -189,3 +189,26 @@ unit({
         {'file': SU, 'qual': 'ConvertToUpperInPlace', 'cname': 'StringUtility_ConvertToUpperInPlace', 'rangefor': {'c': 'char'}},
     ],
 })
+
+# --------------------------------------------------------------------------- U-HUFF
+HF = 'src/Archive/AdaptiveHuffmanTree.cpp'
+HUFF_TM = {'NodeType': 'uint16_t', 'NodeIndex': 'uint16_t', 'NodeData': 'uint16_t', 'AdaptiveHuffmanTree::NodeType': 'uint16_t',
+           'AdaptiveHuffmanTree::NodeIndex': 'uint16_t', 'AdaptiveHuffmanTree::NodeData': 'uint16_t', 'std::vector<NodeType>': 'vec_u16',
+           'AdaptiveHuffmanTree': 'AdaptiveHuffmanTree'}
+def _hf(name, **kw):
+    d = {'file': HF, 'qual': 'AdaptiveHuffmanTree::' + name, 'cls': 'AdaptiveHuffmanTree', 'cname': 'AdaptiveHuffmanTree_' + name}
+    d.update(kw); return d
+HUFF_STRUCTS = [VIEW('vec_u16', 'uint16_t'), ('src/Archive/AdaptiveHuffmanTree.h', 'AdaptiveHuffmanTree')]
+HUFF_CALLS = {
+    'VerifyNodeIndexInBounds': T('AdaptiveHuffmanTree_VerifyNodeIndexInBounds'),
+    'VerifyNodeDataInBounds': T('AdaptiveHuffmanTree_VerifyNodeDataInBounds'),
+    'SwapNodes': N('AdaptiveHuffmanTree_SwapNodes'),
+}
+HUFF_FUNCS = [
+    _hf('AdaptiveHuffmanTree', cname='AdaptiveHuffmanTree_ctor', ctor=True,
+        init_as_call={'linkOrData': 'vec_u16_init(&self->linkOrData, $)', 'subtreeCount': 'vec_u16_init(&self->subtreeCount, $)', 'parentIndex': 'vec_u16_init(&self->parentIndex, $)'}),
+    _hf('TerminalNodeCount'), _hf('GetRootNodeIndex'), _hf('GetChildNode'), _hf('IsLeaf'), _hf('GetNodeData'),
+    _hf('UpdateCodeCount'), _hf('VerifyNodeIndexInBounds'), _hf('VerifyNodeDataInBounds'),
+    _hf('SwapNodes', autos={'temp': 'uint16_t'}), _hf('GetEncodedBitString'),
+]
+unit({'name': 'huff', 'typemap': HUFF_TM, 'structs': HUFF_STRUCTS, 'calls': HUFF_CALLS, 'functions': HUFF_FUNCS})
